@@ -49,6 +49,24 @@ const HASH_NAMES: &[(&str, &str)] = &[
     ("getrandom", "rand"),
     ("OsRng", "rand"),
     ("StdRng", "rand"),
+    // interior mutability / global state: a rendering could observe what an earlier one left behind
+    ("RefCell", "state"),
+    ("Cell", "state"),
+    ("UnsafeCell", "state"),
+    ("Mutex", "state"),
+    ("RwLock", "state"),
+    ("OnceCell", "state"),
+    ("OnceLock", "state"),
+    ("LazyLock", "state"),
+    ("LazyCell", "state"),
+    ("lazy_static", "state"),
+    ("AtomicUsize", "state"),
+    ("AtomicIsize", "state"),
+    ("AtomicU64", "state"),
+    ("AtomicI64", "state"),
+    ("AtomicU32", "state"),
+    ("AtomicI32", "state"),
+    ("AtomicBool", "state"),
 ];
 
 /// kind of a path given its segments (first match wins), or None.
@@ -82,7 +100,7 @@ fn path_kind(segs: &[String]) -> Option<&'static str> {
 }
 
 fn is_hash_kind(k: &str) -> bool {
-    matches!(k, "HashMap" | "HashSet" | "IndexMap" | "RandomState")
+    matches!(k, "HashMap" | "HashSet" | "IndexMap" | "RandomState" | "state")
 }
 
 fn segs_of(p: &syn::Path) -> Vec<String> {
@@ -453,16 +471,63 @@ impl<'ast> Visit<'ast> for Scanner {
         let name = m.path.segments.last().map(|s| s.ident.to_string()).unwrap_or_default();
         match name.as_str() {
             "env" | "option_env" => self.push("env", format!("macro:{}!", name)),
-            "thread_local" => self.push("thread", format!("macro:{}!", name)),
+            "thread_local" | "lazy_static" => {
+                self.push("thread", format!("macro:{}!", name));
+                for n in static_names(m.tokens.clone()) {
+                    self.push("thread", format!("static:{}", n));
+                }
+            }
             _ => {}
         }
         self.scan_macro_tokens(&name, m.tokens.clone());
         syn::visit::visit_macro(self, m);
     }
+    fn visit_item_static(&mut self, i: &'ast syn::ItemStatic) {
+        if has_cfg_test(&i.attrs) {
+            return;
+        }
+        if matches!(i.mutability, syn::StaticMutability::Mut(_)) {
+            self.push("state", format!("static-mut:{}", i.ident));
+        }
+        syn::visit::visit_item_static(self, i);
+    }
+    fn visit_expr_cast(&mut self, c: &'ast syn::ExprCast) {
+        // `x as *const T (as usize)`: an address becomes a value
+        if let syn::Type::Ptr(_) = &*c.ty {
+            self.push("pointer-address", format!("cast:{}", c.ty.to_token_stream().to_string().replace(' ', "")));
+        }
+        syn::visit::visit_expr_cast(self, c);
+    }
     fn visit_lit_str(&mut self, l: &'ast syn::LitStr) {
         let v = l.value();
         self.scan_literal_text(&v, "lit");
     }
+}
+
+/// names declared by `static [mut] NAME` inside a thread_local!/lazy_static! body
+fn static_names(ts: TokenStream) -> Vec<String> {
+    let toks: Vec<TokenTree> = ts.into_iter().collect();
+    let mut out = vec![];
+    let mut i = 0;
+    while i < toks.len() {
+        if let TokenTree::Ident(id) = &toks[i] {
+            if id == "static" {
+                let mut j = i + 1;
+                while j < toks.len() {
+                    match &toks[j] {
+                        TokenTree::Ident(x) if x == "mut" || x == "ref" => j += 1,
+                        TokenTree::Ident(x) => {
+                            out.push(x.to_string());
+                            break;
+                        }
+                        _ => break,
+                    }
+                }
+            }
+        }
+        i += 1;
+    }
+    out
 }
 
 fn rs_files(dir: &Path, out: &mut Vec<PathBuf>) {
@@ -549,6 +614,18 @@ fn collect_sites(root: &Path) -> Result<(Vec<Site>, Vec<String>, Vec<String>), S
                             sc.fields.insert(id.to_string(), k);
                         }
                     }
+                }
+                // thread_local!/lazy_static! statics are tracked file-wide by name (`NAME.with(..)`)
+                if let syn::Item::Macro(m) = it {
+                    let n = m.mac.path.segments.last().map(|s| s.ident.to_string()).unwrap_or_default();
+                    if n == "thread_local" || n == "lazy_static" {
+                        for name in static_names(m.mac.tokens.clone()) {
+                            sc.fields.insert(name, "thread");
+                        }
+                    }
+                }
+                if let syn::Item::Static(st) = it {
+                    sc.fields.insert(st.ident.to_string(), "state");
                 }
             }
             sc.visit_file(&ast);
@@ -758,6 +835,41 @@ fn run_case(case: &Value) -> Value {
             let ks: Vec<String> = v.as_object().map(|o| o.keys().cloned().collect()).unwrap_or_default();
             let vals: Vec<String> = v.as_object().map(|o| o.values().map(|x| x.to_string()).collect()).unwrap_or_default();
             return json!({"id": id, "r": format!("{}|{}", ks.join(","), vals.join(","))});
+        }
+        // several documents built and rendered one after the other ON THIS THREAD (thread-local state
+        // such as value.rs FILLING survives between them): per step `spaces` fresh TypeSpaces, each
+        // rendered `renders` times; panics are caught and the sequence goes on
+        "seq" => {
+            let mut steps = vec![];
+            for st in case["steps"].as_array().cloned().unwrap_or_default() {
+                let text = st["text"].as_str().unwrap_or("");
+                let spaces = st["spaces"].as_u64().unwrap_or(1);
+                let renders = st["renders"].as_u64().unwrap_or(1);
+                let mut outs = vec![];
+                for _ in 0..spaces {
+                    let settings = match std::panic::catch_unwind(|| settings_c12(&st["settings"])) {
+                        Ok((s, _)) => s,
+                        Err(e) => {
+                            outs.push(format!("settings-panic:{}", vh::panic_msg(&e)));
+                            continue;
+                        }
+                    };
+                    let b = build(&settings, text);
+                    match b.ts {
+                        None => outs.push(b.outcome),
+                        Some(ts) => {
+                            for _ in 0..renders {
+                                outs.push(match stream_text(&ts) {
+                                    Ok(t) => digest(&t.to_string()),
+                                    Err(m) => m,
+                                });
+                            }
+                        }
+                    }
+                }
+                steps.push(json!({"name": st["name"], "outs": outs}));
+            }
+            return json!({"id": id, "steps": steps, "pid": std::process::id()});
         }
         // util.rs all_mutually_exclusive on two object schemas (hook view of the is_subset site)
         "mutex" => {
